@@ -1199,7 +1199,9 @@ func (sc *serverConn) handleFrame(strm *Stream, fr *FrameHeader) error {
 
 		win := int64(fr.Body().(*WindowUpdate).Increment())
 		if win == 0 {
-			return NewGoAwayError(ProtocolError, "window increment of 0")
+			// On a stream this is a stream error: only an increment of 0 on the
+			// connection window takes the connection down (RFC 7540 6.9).
+			return NewResetStreamError(ProtocolError, "window increment of 0")
 		}
 
 		if atomic.AddInt64(&strm.window, win) > 1<<31-1 {
